@@ -3,7 +3,7 @@
    pivot vanishes (field).  Flat row-major arrays are related to index functions M r c by Mat;
    the algebra is done on the functions. *)
 From Coq Require Import ZifyBool.
-From Amgcl Require Import Scalar Vec Crs Kernels KernelsProofs MatOps Adapters BlockProofs Composite CompositeProofs4 Cpr CprProofs3.
+From Amgcl Require Import Scalar Vec Crs Kernels KernelsProofs MatOps Adapters BlockProofs Composite CompositeProofs4 Cpr CprProofs CprProofs2 CprProofs3.
 From Amgcl Require Import DirectUtil.
 Local Open Scope S_scope.
 
@@ -339,5 +339,16 @@ Proof.
   replace (Nat.ltb j B) with true by (symmetry; apply Nat.ltb_lt; exact Hj).
   rewrite (Hz j Hj). ring.
 Qed.
+
+
+Theorem cpr_weights_first_row_all B np (K : crs S) (junk : vec) ip : 0 < B -> ip < np ->
+  Forall (fun r => sorted_strict r = true) (rows K) ->
+  (exists i, i < B /\ Exists (in_block B ip) (nth (ip * B + i) (rows K) [])) ->
+  np * B <= length junk ->
+  cpr_pivots_ok B (tabulate (B * B) (fun idx => mget K (ip * B + idx mod B) (ip * B + idx / B))) ->
+  forall j, j < B ->
+  sumn (fun i => vget (cpr_weights B (np * B) K true junk ip) i * mget K (ip * B + i) (ip * B + j)) B
+  = if Nat.eqb j 0 then s1 else s0.
+Proof. intros H1 H2. exact (cpr_weights_first_row Sft B np K junk ip H1 H2 (cpr_invert_ok_all B)). Qed.
 
 End Field.
